@@ -1,40 +1,39 @@
 /-
 Proofs behind Props/C05.lean (XEP-0198 inbound count).
+
+  ConnC05Base.lean  the specification `countSince`, `Agree`, `Same`; the two step-level statements
+  ConnC05Tx.lean    `reported_h_is_count`: elementwise invariant over queue / retained queue / wire log
+  ConnC05Same.lean  the functions that leave counter, history and "SM record exists" alone; connect calls
+  ConnC05Hs.lean    registration of `_handle_sm` (namespace filter, never an id handler)
+  ConnC05Fire.lean  one dispatch against the ghost marks (`fireStanza_count`, `handleStreamStanza_agree`)
+  ConnC05Main.lean  assembly with the C03 invariant (at most one negotiation handler pending)
 -/
-import Strophe.Model.ConnOps
+import Strophe.Lemmas.ConnC05Base
+import Strophe.Lemmas.ConnC05Tx
+import Strophe.Lemmas.ConnC05Same
+import Strophe.Lemmas.ConnC05Main
 
 namespace Strophe.Lemmas.ConnC05
 open Strophe Strophe.Conn
 
-/-- SPECIFICATION of the inbound count, over the history of what was dispatched: it starts at 0
-    when `<enabled/>` answers our `<enable/>`, goes up by one for every dispatched stanza that is not
-    an XEP-0198 element while stream management is on, and is carried across connections -/
-def countSince : List RxEv → Nat
-  | [] => 0
-  | l => l.foldl (fun n e => match e with
-      | .stanza true => n + 1
-      | .stanza false => n
-      | .enabledAccepted => 0
-      | .smReset => 0) 0
-
 /-- the counter IS that number (mod 2^32) in every reachable state -/
 theorem handled_is_dispatch_count (jid pass : Option Bytes) (cert : Bool) (flags : Nat) (ops : List Op) :
     let c := exec (fresh jid pass cert flags) ops
-    c.sm.handledNr = UInt32.ofNat (countSince c.rxLog) := by
-  sorry
+    c.sm.handledNr = UInt32.ofNat (countSince c.rxLog) :=
+  handled_is_dispatch_count' jid pass cert flags ops
 
 /-- XEP-0198 elements themselves are never counted -/
 theorem sm_elements_never_counted (c0 : Conn) (st : XTree) (h : st.ns? = some Gen.nsSm) :
-    countsInbound c0 st = false := by
-  sorry
+    countsInbound c0 st = false :=
+  sm_elements_never_counted' c0 st h
 
 /-- every `<r/>` is answered by exactly one `<a/>` carrying the current count, queued at once (and
     the answer is itself not a stanza: it is never numbered) -/
 theorem every_r_one_a (c : Conn) (st : XTree) (hns : st.ns? = some Gen.nsSm)
     (hname : st.name? = some (b "r")) (hstate : c.state = .connected) :
     ∃ e, (smHandleStanza c st).queue = c.queue ++ [e] ∧ e.item = .ack c.sm.handledNr ∧
-      e.owner = .smStrophe ∧ (smHandleStanza c st).sm.handledNr = c.sm.handledNr := by
-  sorry
+      e.owner = .smStrophe ∧ (smHandleStanza c st).sm.handledNr = c.sm.handledNr :=
+  every_r_one_a' c st hns hname hstate
 
 /-- the `h` of every `<a/>` and of every `<resume/>` that reaches the wire is the counter as it was
     when the element was produced -/
@@ -42,13 +41,13 @@ theorem reported_h_is_count (jid pass : Option Bytes) (cert : Bool) (flags : Nat
     (hu : userOps ops) :
     ∀ r ∈ (exec (fresh jid pass cert flags) ops).tx,
       (∀ h, r.item = .ack h → h = r.snap.handledNr) ∧
-      (∀ p h, r.item = .resume p h → h = r.snap.handledNr) := by
-  sorry
+      (∀ p h, r.item = .resume p h → h = r.snap.handledNr) :=
+  reported_h_is_count' jid pass cert flags ops hu
 
 /-- the count survives the loss of the connection and the next connect (it is what `<resume/>`
     will report) -/
 theorem count_carried_across (c : Conn) (k : ConnectKind) (hsm : c.hasSm = true) :
-    (connDisconnect c).sm.handledNr = c.sm.handledNr ∧ (step c (.connect k)).sm.handledNr = c.sm.handledNr := by
-  sorry
+    (connDisconnect c).sm.handledNr = c.sm.handledNr ∧ (step c (.connect k)).sm.handledNr = c.sm.handledNr :=
+  count_carried_across' c k hsm
 
 end Strophe.Lemmas.ConnC05
